@@ -158,7 +158,7 @@ class C13(Prop):
         out.append({'mode': 'listen', 'latency': 0.01, 'fail': 'refused', 'poll': 2, 'ports': one, 'steps': [
             ['down'], ['await_offline'], ['mattr', 'p1', 'display_name', 'edited'], ['mvalue', 'p1', 42], ['wait', 3],
             ['restart'], ['wait', 5], ['up'], ['await_online'], ['check']]})
-        # KNOWN FINDING C13-offline-write-over-unread-queue (Lean: offline_write_over_unread_queue_is_lost): 401 remote
+        # KNOWN FINDING C13-offline-write-over-unread-queue (Lean: unrepaired_offline_write_over_unread_queue_is_lost): 401 remote
         # values in one listen batch, outage, the user writes 42 while ~90 of them are still unread: the next ticks read
         # them INTO the value kept for the push; the reconnect pushes the slave's own 7 instead of 42
         out.append(backlog_witness())
